@@ -18,7 +18,7 @@ def run(pid, tier, seed, replay=None):
     total = states = 0
     samples = []
     enumerated = {}
-    for group, cap in ((1, 400 if quick else 12000), (2, 400 if quick else 1536)):
+    for group, cap in ((1, 400 if quick else 12000), (2, 450 if quick else 6000)):
         cfg = _cfg("foreign%d" % group, "SPECIFICATION Spec\nCONSTANTS Group = %d\nINVARIANTS WellFormedCase PrintCase\nCHECK_DEADLOCK FALSE\n" % group)
         r = tlc("MCForeignBinary", cfg, workers=6, timeout=1800, xmx="8g")
         v = tlc_violation(r)
